@@ -280,10 +280,86 @@ func subnetSlotFns(c *Ctx) (acquire, release *types.Func) {
 			release = f.Obj
 		}
 	}
+	slotMode = slotModeT{}
+	if acquire != nil && release == nil {
+		// one function doing both, told apart by a bool parameter: the value under which the table entry grows takes a slot
+		raw := c.P.FuncOf(acquire)
+		f := c.P.Expand(raw, ir.ExpandOpt{Key: "unit"})
+		var mode types.Object
+		idx, k := -1, 0
+		for _, fl := range f.Type.Params.List {
+			for _, nm := range fl.Names {
+				if isBasicKind(types.Bool)(f.Info().TypeOf(fl.Type)) {
+					mode, idx = f.Info().Defs[nm], k
+				}
+				k++
+			}
+		}
+		if mode != nil {
+			g := f.Graph()
+			var whenTrue, whenFalse []*cfgx.Edge
+			for _, n := range g.Nodes {
+				if n.Block != nil && n.Block.Cond == n.AST && len(n.Succs) == 2 && f.ObjOf(n.AST.(ast.Expr)) == mode {
+					whenTrue, whenFalse = append(whenTrue, n.Succs[0]), append(whenFalse, n.Succs[1])
+				}
+			}
+			var grows []*cfgx.Node
+			for _, n := range g.Nodes {
+				if n.AST == nil {
+					continue
+				}
+				for _, w := range f.WritesIn(n.AST, false) {
+					ix, ok := ast.Unparen(w.LHS).(*ast.IndexExpr)
+					if !ok || (f.FieldOf(ix.X) != fld && f.FieldOf(origin(f, ix.X)) != fld) {
+						continue
+					}
+					if w.Tok == token.INC || w.Tok == token.ADD_ASSIGN {
+						grows = append(grows, n)
+					} else if be, ok := ast.Unparen(w.RHS).(*ast.BinaryExpr); w.RHS != nil && ok && be.Op == token.ADD {
+						grows = append(grows, n)
+					}
+				}
+			}
+			onTrue, onFalse := len(grows) > 0, len(grows) > 0
+			for _, n := range grows {
+				onTrue = onTrue && f.OnlyVia(n, whenTrue)
+				onFalse = onFalse && f.OnlyVia(n, whenFalse)
+			}
+			if onTrue != onFalse {
+				release = acquire
+				slotMode = slotModeT{merged: true, idx: idx, acquireVal: onTrue}
+			}
+		}
+	}
 	if acquire == nil || release == nil {
 		ir.Fail("subnet slot acquire/release methods not found (writers of Syncer.inflightSubnet)")
 	}
 	return
+}
+
+// slotModeT: when one function both takes and returns a subnet slot, the
+// position of its bool mode parameter and the value that takes a slot.
+type slotModeT struct {
+	merged     bool
+	idx        int
+	acquireVal bool
+}
+
+var slotMode slotModeT
+
+// slotCallIs reports whether call (to a slot operation) acts as an acquisition (want true) or a release.
+func slotCallIs(f *ir.Func, call *ast.CallExpr, acquire bool) bool {
+	if !slotMode.merged {
+		return true
+	}
+	if slotMode.idx >= len(call.Args) {
+		return false
+	}
+	tv, ok := f.Info().Types[call.Args[slotMode.idx]]
+	if !ok || tv.Value == nil {
+		return false
+	}
+	return (tv.Value.String() == "true") == (slotMode.acquireVal == acquire)
 }
 
 func c18r2(c *Ctx) {
@@ -293,6 +369,9 @@ func c18r2(c *Ctx) {
 	for _, f := range slotFuncs(c) {
 		g := f.Graph()
 		for _, call := range f.CallsTo(false, acq) {
+			if !slotCallIs(f, call.Expr, true) {
+				continue
+			}
 			n++
 			c.VisitGraph(f)
 			ob := c.Ob(f, "subnet-slot-released", call.Pos())
@@ -304,7 +383,7 @@ func c18r2(c *Ctx) {
 			key := call.Expr.Args[0]
 			isRel := func(fn *ir.Func, root ast.Node) bool {
 				for _, rc := range fn.CallsIn(root, false) {
-					if rc.Fn == rel.Origin() && len(rc.Expr.Args) == 1 && fn.ObjOf(rc.Expr.Args[0]) == f.ObjOf(key) {
+					if rc.Fn == rel.Origin() && len(rc.Expr.Args) >= 1 && fn.ObjOf(rc.Expr.Args[0]) == f.ObjOf(key) && slotCallIs(fn, rc.Expr, false) {
 						return true
 					}
 				}
